@@ -108,5 +108,17 @@ def run(chk, prog):
     ft = [a for a in sm.accesses if a.kind == "store" and a.base == "fptype" and a.idx is None]
     ok = len(ft) == 1 and "getFPType" in A.show(ft[0].value_node)
     chk.check(ok, "R3", A.loc(mainf, {"line": ft[0].line if ft else mainf["line"]}), "main: fptype comes from the FPType option", "main:fptype-source")
+    # ---- R4: the identity steps of the chain -------------------------------------------------------------
+    # without impedance the wake step of the loop is an Identity (and so is the damping step for e1 <= 0): the chain only relaxes
+    # every bunch if that step hands on the whole grid; decided under C01/R4, re-evaluated here
+    from . import C01 as c01
+    sub = type(chk)("C01", chk.tier)
+    c01.run(sub, prog)
+    r = [i for i in sub.instances if i["rule"] == "R4" and "Identity" in i["what"]]
+    for i in r:
+        chk.check(i["ok"], "R4", i["site"], "(C01/R4) %s" % i["what"].split("\n")[0][:220], "C01-R4:%s" % i.get("key", "ok"))
+    chk.floor("R4-identity", len(r), 2)
+    wmnew = [y for y in A.walk(mainf["body"]) if y["k"] == "CXXNewExpr" and "Identity" in (y.get("alloc_type") or "")]
+    chk.check(len(wmnew) >= 2, "R4", mainf.where, "main builds Identity maps for the absent wake and the absent damping (%d)" % len(wmnew), "main:identities")
     chk.notes.append("C04: decides that the Fokker-Planck stencils are consistent discretisations of e1*(f + p f' + f'') with matching damping and "
                      "diffusion coefficients for every FPType, and the wiring of e1. Does NOT decide convergence, monotonicity or the stable range.")
